@@ -376,6 +376,15 @@ fn body(p: &P17) -> Option<(String, String)> {
                 verdict = Some(("C17.owner_disturbed".into(), format!("the owner's put failed after the attempts: {} ({})", e, hist())));
             } else if get(db, b"k0") != Some(b"v0".to_vec()) || get(db, b"k1") != Some(b"v1".to_vec()) {
                 verdict = Some(("C17.owner_disturbed".into(), format!("the owner's data is not readable after the attempts ({})", hist())));
+            } else {
+                // the owner can still flush its memtable (its directories are intact) and go on writing
+                let z: &[u8] = &[0xff, 0xff, 0xff];
+                db.compact_range(Some(z)..Some(z));
+                if let Err(e) = db.put(WriteOptions::default(), b"k2".to_vec(), b"v2".to_vec()) {
+                    verdict = Some(("C17.owner_disturbed".into(), format!("after the attempts the owner cannot flush and go on writing: {} ({})", e, hist())));
+                } else if get(db, b"k0") != Some(b"v0".to_vec()) || get(db, b"k2") != Some(b"v2".to_vec()) {
+                    verdict = Some(("C17.owner_disturbed".into(), format!("the owner's data is not readable after the attempts and a flush ({})", hist())));
+                }
             }
         }
     }
